@@ -10,6 +10,7 @@ import (
 	"sort"
 	"strconv"
 	"strings"
+	"sync"
 	"time"
 )
 
@@ -24,14 +25,14 @@ var Root = func() string {
 type Coverage map[string]any
 
 type Evidence struct {
-	PropertyID  string   `json:"property_id"`
-	Tier        string   `json:"tier"`
-	Seed        int      `json:"seed"`
-	Level       string   `json:"level"`
-	Coverage    Coverage `json:"coverage"`
-	Assumptions []string `json:"assumptions,omitempty"`
-	WallS       float64  `json:"wall_s"`
-	Violations  int      `json:"violations"`
+	PropertyID       string   `json:"property_id"`
+	Tier             string   `json:"tier"`
+	Seed             int      `json:"seed"`
+	Level            string   `json:"level"`
+	Coverage         Coverage `json:"coverage"`
+	Assumptions      []string `json:"assumptions,omitempty"`
+	WallS            float64  `json:"wall_s"`
+	Violations       int      `json:"violations"`
 	KnownFindingsHit []string `json:"known_findings_hit,omitempty"`
 }
 
@@ -120,6 +121,7 @@ type Report struct {
 	Known      map[string]string
 	KnownHit   map[string]int
 	Violations []Violation
+	mu         sync.Mutex
 }
 
 type Violation struct {
@@ -134,6 +136,8 @@ func NewReport(prop, tier string) *Report {
 
 // Add records a violation with signature sig; it returns true if the violation is new (not a known finding).
 func (r *Report) Add(sig, msg string, replay func() string) bool {
+	r.mu.Lock()
+	defer r.mu.Unlock()
 	if _, ok := r.Known[sig]; ok && sig != "" {
 		r.KnownHit[sig]++
 		return false
